@@ -250,6 +250,8 @@ var cgFixed = []string{
 	// no declaration in the slice, calls them equal, and the (stable) sort keeps the document order
 	`<r xmlns:a="urn:x:a" xmlns:b="urn:x:b"><e b:k="1" a:k="2"></e></r>`,
 	`<r xmlns:a="urn:x:a" xmlns:b="urn:x:b"><e a:k="2" b:k="1"></e></r>`,
+	// ... and a redundant re-declaration of one of the prefixes on the element makes them change places
+	`<r xmlns:a="urn:x:a" xmlns:b="urn:x:b"><e xmlns:a="urn:x:a" a:k="2" b:k="1"></e></r>`,
 	// the same with the declarations on the element itself: sorted by name-space URI
 	`<e xmlns:a="urn:x:b" xmlns:b="urn:x:a" b:k="1" a:k="2"></e>`,
 	`<e a:k="2" xmlns:b="urn:x:a" b:k="1" xmlns:a="urn:x:b"></e>`,
